@@ -26,7 +26,7 @@ from jaxsmt.interp import Interp, arr0
 from jaxsmt.logmode import Frac, LogInterp, LogVal, log_exp_inverse_axioms
 from jaxsmt.ops import isconc
 from jaxsmt.trace import trace
-from jaxsmt.xreal import XRInterp
+from jaxsmt.xreal import XRInterp, div_axioms
 
 from lerax.distribution import (Bernoulli, Categorical, MultiCategorical, MultivariateNormalDiag, Normal, SquashedMultivariateNormalDiag, SquashedNormal)
 
@@ -90,8 +90,9 @@ def multi_replay(tr, S, it, points, overrides, judge):
     return rp
 
 
-def xlogx(p, lp):
-    return 0.0 if p == 0 else p * lp
+def jexp(outs, ins):
+    p, lp = np.asarray(outs["p"], float), np.asarray(outs["lp"], float)
+    return (np.shape(p) != np.shape(lp) or not np.allclose(p, np.exp(lp), rtol=1e-3, atol=1e-6)), {"prob": p.tolist(), "exp(log_prob)": np.exp(lp).tolist()}
 
 
 # ===================================================================== Categorical
@@ -138,16 +139,18 @@ def judge_discrete(support, outside):
 
 def discrete_obligations(ck, name, tag, it, outs, support, outside, asm, rp, entropy=True, tame=()):
     o = it.o
-    side = conj(it.side_conds())
     P = {k: low(o, outs[k]["p"][()]) for k in support + outside}
     LP = {k: outs[k]["lp"][()] for k in support + outside}
     g1 = [eq_elem(P[k], expL(o, LP[k])) for k in support + outside]
     tame = list(tame)
+    side = conj(it.side_conds())      # (after every lowering: lowering records its own side conditions)
     ck.prove(f"{name}.prob_is_exp_logprob@{tag}", asm, conj([side] + g1), replay=rp, nonlinear=True, margin_goal=mg(tame, conj([side] + g1)))
     tot = 0
     for k in support:
         tot = o.add(tot, outs[k]["p"][()])
-    gm = conj([side, eq_elem(low(o, tot), Fraction(1))] + [eq_elem(P[k], Fraction(0)) for k in outside])
+    tot = low(o, tot)
+    side = conj(it.side_conds())
+    gm = conj([side, eq_elem(tot, Fraction(1))] + [eq_elem(P[k], Fraction(0)) for k in outside])
     ck.prove(f"{name}.mass_one@{tag}", asm, gm, replay=rp, nonlinear=True, margin_goal=mg(tame, gm))
     if entropy:
         ent = low(o, outs[support[0]]["ent"][()])
@@ -156,6 +159,7 @@ def discrete_obligations(ck, name, tag, it, outs, support, outside, asm, rp, ent
             lpk = low(o, LP[k])
             term = z3.If(P[k] == 0, 0, P[k] * (lpk if not isinstance(lpk, float) else 0)) if not isconc(P[k]) else (0 if P[k] == 0 else P[k] * lpk)
             ref = ref - term
+        side = conj(it.side_conds())
         ck.prove(f"{name}.entropy_def@{tag}", asm, conj([side, eq_elem(ent, ref)]), replay=rp, nonlinear=True, margin_goal=mg(tame, conj([side, eq_elem(ent, ref)])))
     return P, LP
 
@@ -466,8 +470,7 @@ def sec_normal(ck):
     out = tr.run(it, S)
     sc = S["sc"][()]
     asm = [sc > 0] + stubs.contracts(it)
-    rpo = lambda oracle: (lambda res: concrete.replay_outputs(tr, S, res, uf_apps=it.uf_apps, oracle=oracle))
-    ck.prove("normal.prob_is_exp_logprob", asm, eq_arr(out["p"], arr0(it.o.unary("exp", out["lp"][()]))), replay=rpo({}))
+    ck.prove("normal.prob_is_exp_logprob", asm, eq_arr(out["p"], arr0(it.o.unary("exp", out["lp"][()]))), replay=judge_replay(tr, S, it.uf_apps, jexp))
     o2 = tr.run(it, tr.symbols(it, given={"loc": S["loc"], "sc": S["sc"], "key": S["key"], "v": out["slp_s"]}))
 
     def jcons(outs, ins):
@@ -489,7 +492,7 @@ def sec_mvn(ck, D):
     S = tr.symbols(it)
     out = tr.run(it, S)
     asm = [s > 0 for s in S["sc"]] + stubs.contracts(it)
-    ck.prove(f"mvn_diag.prob_is_exp_logprob@D={D}", asm, eq_arr(out["p"], arr0(it.o.unary("exp", out["lp"][()]))), replay=lambda res: concrete.replay_outputs(tr, S, res, uf_apps=it.uf_apps, oracle={}))
+    ck.prove(f"mvn_diag.prob_is_exp_logprob@D={D}", asm, eq_arr(out["p"], arr0(it.o.unary("exp", out["lp"][()]))), replay=judge_replay(tr, S, it.uf_apps, jexp))
     slp, sent = 0, 0
     for i in range(D):
         slp = it.o.add(slp, out["comp_lp"][i])
@@ -606,7 +609,9 @@ def sec_squashed_real(ck, D):
                            f"a product law has ONE log-probability (the sum over components): log_prob shape {out['lp'].shape}, sample_and_log_prob log-prob shape {out['slp_lp'].shape}"):
         ck.skip(f"{name}.*", "log_prob of the product law is not a scalar")
         return None
-    ck.prove(f"{name}.prob_is_exp_logprob{tag}", asm, eq_arr(out["p"], arr0(it.o.unary("exp", out["lp"][()]))), replay=lambda res: concrete.replay_outputs(tr, S, res, uf_apps=it.uf_apps, oracle={}))
+    dom0 = [z3.And(4 * v >= 3 * l_ + h, 4 * v <= l_ + 3 * h) for v, l_, h in zip(y, lo, hi)]
+    ck.prove(f"{name}.prob_is_exp_logprob{tag}", asm, eq_arr(out["p"], arr0(it.o.unary("exp", out["lp"][()]))), replay=judge_replay(tr, S, it.uf_apps, jexp),
+             margin_goal=mg(dom0 + between(hi + lo, -3, 3) + [h - l_ >= 1 for h, l_ in zip(hi, lo)] + between(sc, Fraction(1, 2), 2) + between(loc, -1, 1), eq_arr(out["p"], arr0(it.o.unary("exp", out["lp"][()])))))
     # support: samples and the mode lie in [low, high]
     inb = []
     for nm in ("sample", "slp_s", "mode"):
@@ -678,7 +683,7 @@ def sec_squashed_log(ck, D):
     loc, sc, hi, lo = (flat(S[k]) for k in ("loc", "sc", "hi", "lo"))
     xs = [s * n + m for s, n, m in zip(sc, ns, loc)]
     asm = [s > 0 for s in sc] + [h > l_ for h, l_ in zip(hi, lo)] + [z3.And(x >= -XB, x <= XB) for x in xs] + stubs.contracts(it)
-    goal = conj([eq_elem(lp1.a, lp2.a), eq_elem(lp1.P.term(), lp2.P.term())] + it.side_conds())
+    goal = conj([eq_elem(lp1.a, lp2.a), eq_elem(lp1.P.term(), lp2.P.term()), lp1.P.denterm() != 0, lp2.P.denterm() != 0] + it.side_conds())
 
     def jcons(outs, ins):
         dist = (SquashedMultivariateNormalDiag if vec else SquashedNormal)(*(jnp.asarray(ins[k], jnp.float32) for k in ("loc", "sc", "hi", "lo")))
@@ -742,7 +747,7 @@ def sec_squashed_onto_and_jacobian(ck):
     lhs = ij.o.fmul(lp.P, ij.o.toF(oj["dy"][()]))
     sc, hi, lo, x = (Sj[k][()] for k in ("sc", "hi", "lo", "x"))
     asmj = [sc > 0, hi > lo, x >= -XB, x <= XB]
-    goal = conj([eq_elem(lp.a, base.a), eq_elem(lhs.term(), base.P.term())] + ij.side_conds())
+    goal = conj([eq_elem(lp.a, base.a), eq_elem(lhs.term(), base.P.term()), lhs.denterm() != 0, base.P.denterm() != 0] + ij.side_conds())
 
     def jjac(outs, ins):
         d = SquashedNormal(*(jnp.asarray(ins[k], jnp.float32) for k in ("loc", "sc", "hi", "lo")))
@@ -759,6 +764,17 @@ def sec_squashed_onto_and_jacobian(ck):
 
 def main():
     ck = Check("C15", "Action distributions are coherent probability laws")
+    _prove, seen_asm = ck.prove, set()
+
+    def prove(oid, asm, goal, **kw):
+        key = tuple(sorted(a.get_id() for a in asm if not isconc(a)))
+        if key and key not in seen_asm:
+            seen_asm.add(key)      # vacuity guard: every distinct assumption set must be satisfiable
+            ck.witness(f"witness.assumptions.{oid}", list(asm), nonlinear=kw.get("nonlinear", False))
+        if not kw.get("nonlinear") and not kw.get("ackermann") and not isconc(goal):
+            asm = list(asm) + div_axioms(list(asm) + [goal])      # valid facts about the quotients in the query (probs >= 0)
+        return _prove(oid, asm, goal, **kw)
+    ck.prove = prove
     ck.mode = "LOG (discrete laws, squashing identities), REAL modulo uninterpreted log/exp/logistic (continuous laws), XREAL (discrete samplers)"
     Ks = [2, 3] if not ck.thorough else [2, 3, 4, 5, 6]
     ck.bound(categorical_K=Ks, bernoulli="scalar, logits and probs", multicategorical_dims=[[2, 3]], flat_vs_sequence_dims=[[2, 3], [2, 3, 2]] + ([[1, 4]] if ck.thorough else []), mvn_dims=[2] if not ck.thorough else [2, 3, 4], squashed_mvn_dims=[2] if not ck.thorough else [2, 3],
